@@ -14,6 +14,11 @@ ALLOC_ONLY = [
 NO_THROW_IN_PRACTICE = [
     r"std::(abs|pow|sqrt|cbrt|exp|log|log2|log10|acos|clamp|min|max|fixed|scientific|setprecision|replace|transform|move|forward)$",
     r"std::(unordered_)?map<.*>::(find|end|cend|begin|cbegin)$",   # comparing / hashing enum and string_view keys does not throw
+    # <algorithm>/<numeric>/<iterator>/<utility> templates: they throw only what the element operations or the callable
+    # throw, and the callable is library code (a lambda body is a function of the library, examined like any other)
+    r"std::(transform|equal|all_of|any_of|none_of|accumulate|inner_product|copy|copy_n|fill|fill_n|for_each|begin|end|cbegin|cend|size|data|get|tie|make_tuple|forward_as_tuple|exchange|swap|make_optional|make_pair|as_const|addressof)$",
+    r"std::(tuple|pair|reference_wrapper)<.*>",
+    r"std::operator(==|!=|<|>|<=|>=)$",   # of tuples of references / arithmetic values (std::tie comparisons)
     r"(acos|sqrt|pow|cbrt|exp|log|log2|log10|tolower|toupper|abs|fabs)$",
     # <cmath>: report errors through errno / floating-point exceptions, never by throwing
     r"(std::)?(a?sin|a?cos|a?tan|atan2|sinh|cosh|tanh|asinh|acosh|atanh|hypot|fabs|fmin|fmax|fdim|fma|floor|ceil|round|trunc|fmod|remainder|exp2|expm1|log1p|"
